@@ -376,6 +376,8 @@ def c03(tier, seed):
     core.build()
     q = tier == "quick"
     mc_cfg(res, "NutsMC_kv", inv=["MCReopenInv", "TypeOK"], props=[], timeout=1800)
+    sparse_mc(res, "Sparse", inv=["TypeOK", "ScanOK", "AllOK"], consts=None if q else {"NKeys": "4", "MaxWrites": "5", "MaxSegs": "3"})
+    sparse_mc(res, "Sparse+PerSegPaging", consts={"Sw": '{"PerSegPaging"}'}, inv=["ScanOK"], expect="ScanOK")
     path, g, n = core.gen_transitions("DsGen_kvpage.cfg", {} if q else {"MaxLen": "= 5"}, timeout=1800)
     res.add_mc("DsGen_kvpage", g)
     res.extra["emitted_transitions"] = n
@@ -450,6 +452,13 @@ def c02(tier, seed):
     core.build()
     q = tier == "quick"
     mc_cfg(res, "NutsMC_kv", inv=["MCReopenInv", "TypeOK"], props=[], timeout=1800)
+    # design of the sparse lookups: active segment, then sealed segments newest first, by key range
+    big = None if q else {"NKeys": "4", "MaxWrites": "5", "MaxSegs": "3"}
+    sparse_mc(res, "Sparse", consts=big)
+    sparse_mc(res, "Sparse+TombSkips", consts={"Sw": '{"TombSkips"}'}, inv=["GetOK"], expect="GetOK")
+    sparse_mc(res, "Sparse+EndTruncated", consts={"Sw": '{"EndTruncated"}'}, inv=["GetOK"], expect="GetOK")
+    sparse_mc(res, "Sparse+Contained", consts={"Sw": '{"Contained"}'}, inv=["ScanOK"], expect="ScanOK")
+    sparse_mc(res, "Sparse+ActiveOnly", consts={"Sw": '{"ActiveOnly"}'}, inv=["AllOK"], expect="AllOK")
     shards = []
     for rw in ("fileio", "mmap"):
         shards += fam_shards([("kv", ["-mode", "sparse", "-rw", rw])], seed, 2 if q else 20, 3 if q else 4, 40 if q else 100)
@@ -504,6 +513,19 @@ def merge_mc(res, label, consts=None, inv=None, expect=None, timeout=1800):
         if n != 1:
             raise Infra("constant %s not found in Merge_base.cfg" % k)
     res.add_mc(label, core.tlc_mc("Merge", cfg, timeout=timeout), expect_violation=expect)
+
+
+def sparse_mc(res, label, consts=None, inv=None, expect=None, timeout=1800):
+    """Sparse.tla: the lookup procedures of HintBPTSparseIdxMode against the ordered map."""
+    import re
+    cfg = open(os.path.join(core.SPEC, "mc", "Sparse_base.cfg")).read()
+    if inv is not None:
+        cfg = re.sub(r"(?m)^INVARIANTS .*$", "INVARIANTS " + " ".join(inv), cfg)
+    for k, v in (consts or {}).items():
+        cfg, n = re.subn(r"(?m)^  %s (=|<-) .*$" % re.escape(k), "  %s = %s" % (k, v), cfg)
+        if n != 1:
+            raise Infra("constant %s not found in Sparse_base.cfg" % k)
+    res.add_mc(label, core.tlc_mc("Sparse", cfg, timeout=timeout), expect_violation=expect)
 
 
 def conc_shards(fams, seed, nseed, hist, steps):
